@@ -302,6 +302,8 @@ def plan(ctx):
     for nd in ("map_async_kw:1", "map_async_kw:2", "map_async_none:1", "map_async_none:2"):
         jobs.append((("chain", nd, "future", "await", 3, 1), 1))
         jobs.append((("chain", nd, "native", "burst", 3, 1), 1))
+    for a in ("buffer:1", "map_async:1", "rate_limit:1", "timed_window:1", "partition:2:1", "delay:1"):
+        jobs.append((("chain", a, "done", "burst", 3, 1), 0 if a.startswith(("timed_window", "partition", "delay", "rate_limit")) else 1))
     for nd in ("map_async:1", "map_async:2", "map_async_failing:1", "map_async_failing:2", "buffer:1,map_async_failing:1"):
         jobs.append((("srcchain", nd, "future", 4), 1))
     return jobs
